@@ -28,6 +28,7 @@ Definition pool := list obj.
 Inductive ret :=
 | RUnit | RVal (v : val) | RBool (b : bool) | RInt (z : Z) | RNew
 | RPanic | RHang
+| RPartial   (* round 5: the call panicked PART WAY through a bulk argument; what it did before the panic remains *)
 | RBad.     (* ill-typed op or inconsistent oracle: never equal to an observation *)
 
 (* the class functions, for calls with a nil operand *)
@@ -69,7 +70,11 @@ Inductive op :=
 | MakeSetLim (m : nat)                       (* Set.MakeWithCollator(Collator.MakeWithMaximum(m)) *)
 | SortSlice (s rk : nat)                     (* a sorter INSTANCE with ranker rk sorts the caller's Go array in place *)
 | AssocSet (s i : nat) (v : val)             (* the caller calls SetValue(v) on the association OBJECT at position i of its Go array s *)
-| NilCall (f : cfun) (a : nat) (nil_first : bool).  (* class function f with operand a and a nil interface as the other operand *)
+| NilCall (f : cfun) (a : nat) (nil_first : bool)
+(* round 5 *)
+| ABadKey (o : nat)                               (* GetValue / SetValue / RemoveValue / GetValues of an any-keyed Catalog or Map with an UNHASHABLE key (a Go slice under any): the Go runtime panics at the lookup *)
+| ARemoveValuesBad (o : nat) (ks : list val)      (* RemoveValues(ks ++ [unhashable key] ++ ...): the keys ks are removed one by one, then the lookup of the unhashable key panics *)
+| FromMapV (k : ckind) (src : nat) (opairs : list (val * val)).  (* MakeFromMap of a Go map that may hold keys not equal to themselves (NaN): the oracle is the order of the PAIRS *)  (* class function f with operand a and a nil interface as the other operand *)
 
 (* ---------- the collators and rankers used by histories ---------- *)
 Definition cmax : nat := Z.to_nat collator_default_maximum.
@@ -153,6 +158,20 @@ Definition set_operand (o : obj) : option ((val -> val -> option comparison) * l
 (* a new Set with the collator of o *)
 Definition set_like (o : obj) (l : list val) : obj :=
   match o with OSet c _ => OSet c l | OSetL m _ => OSetL m l | x => x end.
+
+(* multiset equality of association lists (structural equality of keys and values, so two NaN keys with the same
+   bits match each other although Go's == says they differ) *)
+Definition pair_eqb (a b : val * val) : bool := val_eqb (fst a) (fst b) && val_eqb (snd a) (snd b).
+Fixpoint remove_first_pair (x : val * val) (l : list (val * val)) : option (list (val * val)) :=
+  match l with
+  | [] => None
+  | y :: t => if pair_eqb x y then Some t else option_map (cons y) (remove_first_pair x t)
+  end.
+Fixpoint pairs_perm (a b : list (val * val)) : bool :=
+  match a with
+  | [] => match b with [] => true | _ => false end
+  | x :: a' => match remove_first_pair x b with Some b' => pairs_perm a' b' | None => false end
+  end.
 
 Definition default_stack_cap : nat := Z.to_nat stack_default_capacity.
 Definition default_queue_cap : nat := Z.to_nat queue_default_capacity.
@@ -597,6 +616,32 @@ Definition step (p : pool) (o : op) : pool * ret :=
       | Some (VAssoc k _) => (put p s (OSlice (set_nth i (VAssoc k v) l)), RUnit)
       | _ => (p, RBad)
       end
+    | _ => (p, RBad)
+    end
+  | ABadKey o =>
+    match get p o with
+    | OCat _ | OMap _ => (p, RPanic)
+    | _ => (p, RBad)
+    end
+  | ARemoveValuesBad o ks =>
+    match get p o with
+    | OCat m => (put p o (OCat (snd (a_remove_all zero keq m ks))), RPartial)
+    | OMap m => (put p o (OMap (snd (a_remove_all zero keq m ks))), RPartial)
+    | _ => (p, RBad)
+    end
+  | FromMapV k src opairs =>
+    (* the implementation's insertion order is an oracle; the pairs must be exactly those of the Go map, and the
+       Catalog is what SetValue of each pair in that order builds (a key that is not equal to itself is a new
+       association every time) *)
+    match get p src with
+    | OGoMap m =>
+      if pairs_perm m opairs then
+        match k with
+        | CCatalog => push_obj p (OCat (a_set_all keq [] opairs))
+        | CMap => push_obj p (OMap (a_set_all keq [] opairs))
+        | _ => (p, RBad)
+        end
+      else (p, RBad)
     | _ => (p, RBad)
     end
   | NilCall f a nil_first =>
